@@ -52,27 +52,54 @@ def tier_from_env(default='quick'):
 
 class Driver:
     """Line protocol to the compiled Lean model (`cirbo_model`): one JSON request per line,
-    one JSON response per line."""
+    one JSON response per line (binary pipes, own line buffering, per-answer timeout)."""
 
     def __init__(self):
         if not os.path.exists(DRIVER):
             raise RuntimeError('model driver not built: ' + DRIVER)
-        self.p = subprocess.Popen([DRIVER], stdin=subprocess.PIPE, stdout=subprocess.PIPE,
-                                  text=True, bufsize=1 << 20)
+        self.p = subprocess.Popen([DRIVER], stdin=subprocess.PIPE, stdout=subprocess.PIPE, bufsize=0)
+        self.buf = b''
 
-    def ask_many(self, reqs):
-        """Send all requests, return list of decoded responses (batched for throughput)."""
+    def _readline(self, timeout):
+        import select
+        fd = self.p.stdout.fileno()
+        while b'\n' not in self.buf:
+            rl, _, _ = select.select([fd], [], [], timeout)
+            if not rl:
+                return None
+            chunk = os.read(fd, 1 << 16)
+            if not chunk:
+                return b''
+            self.buf += chunk
+        line, self.buf = self.buf.split(b'\n', 1)
+        return line + b'\n'
+
+    def ask_many(self, reqs, timeout=600):
+        """Send all requests (from a writer thread, so a full pipe cannot deadlock), read one
+        response line per request; a model that does not answer within `timeout` s is an
+        infrastructure failure."""
+        import threading
+        data = [(json.dumps(r, separators=(',', ':')) + '\n').encode() for r in reqs]
+
+        def writer():
+            try:
+                for i in range(0, len(data), 64):
+                    self.p.stdin.write(b''.join(data[i:i + 64]))
+            except Exception:
+                pass
+        t = threading.Thread(target=writer, daemon=True)
+        t.start()
         out = []
-        CH = 256
-        for i in range(0, len(reqs), CH):
-            chunk = reqs[i:i + CH]
-            self.p.stdin.write(''.join(json.dumps(r, separators=(',', ':')) + '\n' for r in chunk))
-            self.p.stdin.flush()
-            for _ in chunk:
-                line = self.p.stdout.readline()
-                if not line:
-                    raise RuntimeError('model driver died; stderr may tell why')
-                out.append(json.loads(line))
+        for _ in reqs:
+            line = self._readline(timeout)
+            if line is None:
+                self.p.kill()
+                raise RuntimeError('model driver did not answer request #%d within %ds: %s'
+                                   % (len(out), timeout, data[len(out)][:300]))
+            if not line:
+                raise RuntimeError('model driver died; stderr may tell why')
+            out.append(json.loads(line))
+        t.join()
         return out
 
     def ask(self, req):
